@@ -34,7 +34,8 @@ Definition erase_groups (l : list (string * description)) : list (string * descr
 
 (* config.json is erased entirely: no response depends on it *)
 Definition public_env (e : env) : env :=
-  {| e_conf := []; e_writable := e_writable e; e_groups := erase_groups (e_groups e);
+  {| e_conf := []; e_writable := e_writable e; e_store_ok := e_store_ok e;
+     e_groups := erase_groups (e_groups e);
      e_tokens := e_tokens e |}.
 
 Lemma assoc_get_map : forall A B (f : A -> B) (l : list (string * A)) k,
@@ -139,7 +140,7 @@ Ltac json_err :=
 
 Lemma rewrite_file_body : forall e g d r, rs_body (snd (rewrite_file e g d r)) = rs_body r \/
   rs_body (snd (rewrite_file e g d r)) = BOFixed.
-Proof. intros. unfold rewrite_file. destruct (e_writable e); cbn; auto. Qed.
+Proof. intros. unfold rewrite_file. destruct (e_writable e), (e_store_ok e); cbn; auto. Qed.
 
 Lemma rewrite_file_clean : forall e g d r, body_clean (rs_body r) ->
   body_clean (rs_body (snd (rewrite_file e g d r))).
@@ -211,7 +212,10 @@ Qed.
 
 Lemma rewrite_file_public : forall e g d d' r,
   snd (rewrite_file e g d r) = snd (rewrite_file (public_env e) g d' r).
-Proof. intros. unfold rewrite_file. cbn [public_env e_writable]. destruct (e_writable e); reflexivity. Qed.
+Proof.
+  intros. unfold rewrite_file. cbn [public_env e_writable e_store_ok].
+  destruct (e_writable e), (e_store_ok e); reflexivity.
+Qed.
 
 Lemma do_set_password_public : forall e g u w pw,
   snd (do_set_password e g u w pw) = snd (do_set_password (public_env e) g u w pw).
@@ -232,6 +236,7 @@ Lemma response_public : forall e1 e2 s m c1 c2 b,
 Proof.
   intros e1 e2 s m c1 c2 b Hp Ha.
   assert (Hw : e_writable e1 = e_writable e2) by (apply (f_equal e_writable) in Hp; exact Hp).
+  assert (Hso : e_store_ok e1 = e_store_ok e2) by (apply (f_equal e_store_ok) in Hp; exact Hp).
   assert (Hn : map fst (e_groups e1) = map fst (e_groups e2)).
   { apply (f_equal e_groups) in Hp. cbn in Hp.
     rewrite <- (map_fst_erase_groups (e_groups e1)), <- (map_fst_erase_groups (e_groups e2)).
@@ -261,9 +266,9 @@ Proof.
     { destruct (json_body b) as [r|p]; [reflexivity|]. destruct p; try reflexivity.
       unfold update_description.
       destruct (db_users b0 || db_wildcard b0 || db_keys b0); [reflexivity|].
-      unfold rewrite_file. rewrite Hw.
+      unfold rewrite_file. rewrite Hw, Hso.
       destruct (file_lookup e1 g), (file_lookup e2 g); try contradiction;
-        destruct (e_writable e2); reflexivity. }
+        destruct (e_writable e2), (e_store_ok e2); reflexivity. }
     destruct (String.eqb m "DELETE"); [|reflexivity].
     destruct (file_lookup e1 g), (file_lookup e2 g); try contradiction; reflexivity.
   - (* SUserList *)
@@ -301,18 +306,18 @@ Proof.
         [|reflexivity].
       unfold update_user. rewrite Epw.
       pose proof (Hfu d1 d2 F) as K.
-      unfold rewrite_file. rewrite Hw.
+      unfold rewrite_file. rewrite Hw, Hso.
       destruct (find_user d1 u wild), (find_user d2 u wild); try contradiction;
-        destruct (e_writable e2); reflexivity. }
+        destruct (e_writable e2), (e_store_ok e2); reflexivity. }
     destruct (String.eqb m "DELETE"); [|reflexivity].
     rewrite Hsu. destruct (get_sanitised_user e2 g u wild); [|reflexivity].
     destruct (file_lookup e1 g) as [d1|], (file_lookup e2 g) as [d2|]; try contradiction;
       [|reflexivity].
     unfold delete_user.
     pose proof (Hfu d1 d2 F) as K.
-    unfold rewrite_file. rewrite Hw.
+    unfold rewrite_file. rewrite Hw, Hso.
     destruct (find_user d1 u wild), (find_user d2 u wild); try contradiction;
-      destruct (e_writable e2); reflexivity.
+      destruct (e_writable e2), (e_store_ok e2); reflexivity.
   - (* SPassword *)
     unfold password_handler. rewrite Ha.
     destruct (api_cors m); [reflexivity|].
@@ -324,7 +329,7 @@ Proof.
   - (* SKeys *)
     unfold keys_handler. rewrite Ha.
     destruct (api_cors m); [reflexivity|]. destruct (negb (is_admin H e2 g c2)); [reflexivity|].
-    pose proof (desc_eq _ _ (Hf g)) as F. unfold rewrite_file. rewrite Hw.
+    pose proof (desc_eq _ _ (Hf g)) as F. unfold rewrite_file. rewrite Hw, Hso.
     destruct (file_lookup e1 g), (file_lookup e2 g); try contradiction;
       split_ifs; reflexivity.
   - (* STokens *)
